@@ -83,7 +83,7 @@ class PurityHooks(Hooks):
         if getattr(self, 'pending_fresh', None) is not None:
             self._judge_fresh(it, i, ev, out)
         # seeded / deterministic calls never touch the global random state
-        if fn not in UNSEEDED and not tag.get('unseeded'):
+        if (fn not in UNSEEDED or 'seed' in ev.get('k', {})) and not tag.get('unseeded'):
             it.probe('check:rng')
             if _rng_state() != self.rng0:
                 it.violate('C10.rng', {'fn': fn}, '%s advanced or replaced the global numpy random state' % fn, i)
@@ -401,6 +401,20 @@ class PurityScenario(Scenario):
                 out.append(first)
                 out.append(E('propagate_dft', ['@' + src], dict(ka), t={'dup_of': first['id']}))
                 out.append(E('propagate_fft', ['@' + w1], {'pixelscale': '@PXA', 'shape': '@SHP', 'oversample': os_}))
+            if rng.random() < 0.3:
+                # an output mask kept in ONE caller buffer that is refilled between exposures (a moving window)
+                mk = nid('mk')
+                out.append({'c': c, 'fn': 'array', 'id': mk, 'recipe': {'kind': rng.choice(['disk', 'rect']), 'shape': [n[0] * os_, n[1] * os_],
+                                                                       'radius': min(n) * os_ / 3.0, 'half': [max(1, n[0] * os_ // 3), max(1, n[1] * os_ // 4)],
+                                                                       'dr': rng.choice([0, 1, -1]), 'dc': rng.choice([0, 1]), 'degenerate_ok': True}})
+                km = {'pixelscale': ph['du'], 'shape': n, 'oversample': os_, 'mask': '@' + mk}
+                out.append(E('propagate_dft', ['@' + src], dict(km), t={'fresh': True}))
+                mk2 = nid('mk')
+                out.append({'c': c, 'fn': 'array', 'id': mk2, 'recipe': {'kind': 'rect', 'shape': [n[0] * os_, n[1] * os_], 'half': [1, 1],
+                                                                        'dr': rng.choice([-1, 1]), 'dc': rng.choice([-1, 0, 1]), 'degenerate_ok': True}})
+                out.append(E('h.refill', ['@' + mk, '@' + mk2], inplace=['@' + mk]))
+                out.append(E('propagate_dft', ['@' + src], dict(km), t={'fresh': True}))
+                out.append(E('propagate_dft', ['@' + src], dict(km, mask='@' + mk2), t={'fresh': True}))
             wi = nid('w')
             out.append(E('propagate_dft', ['@' + src], k, id=wi))
             out.append(E('attr', ['@' + wi, rng.choice(['field', 'intensity'])]))
@@ -811,7 +825,10 @@ class PurityScenario(Scenario):
                    E('dark_current', [12.5], {'shape': '@SHP', 'fpn_factor': 0.2, 'seed': sd()}),
                    E('Wavefront', [ph['wl']], {'tilt': '@TILTV', 'pixelscale': '@PXA'}),
                    E('rule07_dark_current', [100.0, 5e-6, 18e-6], {'shape': [3, 4], 'fpn_factor': 0.3, 'seed': sd()}),
-                   E('power_spectrum', ['@MB'], {'pixelscale': ph['dx'], 'rms': 5e-8, 'half_power_freq': 8.0, 'exp': 3.0, 'seed': sd()})]
+                   E('power_spectrum', ['@MB'], {'pixelscale': ph['dx'], 'rms': 5e-8, 'half_power_freq': 8.0, 'exp': 3.0, 'seed': sd()}),
+                   # every public callable that is handed a seed (today these two do not take one and refuse)
+                   E('cosmic_rays', [[6, 7], [5e-6, 5e-6, 3e-6], 2.0], {'seed': sd()}),
+                   E('smear', ['@IMG', 2.0], {'seed': sd()})]
             picks = rng.sample(out, rng.randint(3, 7))
             for e in picks:
                 if 'seed' in e.get('k', {}):
@@ -967,7 +984,9 @@ class PurityScenario(Scenario):
         """Pure calls (nothing documented as in-place, no unseeded consumer of the global RNG) qualify for C10.fresh."""
         if 'fn' not in ev or ev.get('inplace') or ev.get('t', {}).get('unseeded'):
             return False
-        return not (ev['fn'] in ('array', 'setattr', 'np.copy', 'np.add', 'cosmic_rays') or ev['fn'].startswith(('check.', 'h.')))
+        if ev['fn'] == 'cosmic_rays' and 'seed' not in ev.get('k', {}):
+            return False
+        return not (ev['fn'] in ('array', 'setattr', 'np.copy', 'np.add') or ev['fn'].startswith(('check.', 'h.')))
 
     def interleave(self, rng, progs):
         out = []
@@ -1073,6 +1092,11 @@ class PurityScenario(Scenario):
                                                                      'premise': pa is None or Digester(L)(pa) == Digester(L)(pb)}
         from .optics import h_refit
         fns['h.refit'] = h_refit
+
+        def h_refill(L, buf, new):
+            buf[...] = new           # the caller overwrites its own buffer in place
+            return buf
+        fns['h.refill'] = h_refill
         return fns
 
     def execute(self, L, run):
